@@ -130,128 +130,130 @@ pub const VC_KP_9: u16 = 0x0049;
 pub const VC_KP_0: u16 = 0x0052;
 // End Numeric Zone
 
-pub(crate) fn keycode_to_char(key: u16) -> char {
+/// Returns the character of the `key`, or `None` if the key doesn't produce a character.
+pub(crate) fn keycode_to_char(key: u16) -> Option<char> {
     match key {
         // Alphanumeric keys
-        VC_GRAVE => '`',
-        VC_TILDE => '~',
-        VC_0 => '0',
-        VC_PAREN_RIGHT => ')',
-        VC_1 => '1',
-        VC_EXCLAIM => '!',
-        VC_2 => '2',
-        VC_AT => '@',
-        VC_3 => '3',
-        VC_HASH => '#',
-        VC_4 => '4',
-        VC_DOLLAR => '$',
-        VC_5 => '5',
-        VC_PERCENT => '%',
-        VC_6 => '6',
-        VC_CIRCUM => '^',
-        VC_7 => '7',
-        VC_AMPERSAND => '&',
-        VC_8 => '8',
-        VC_ASTERISK => '*',
-        VC_9 => '9',
-        VC_PAREN_LEFT => '(',
+        VC_GRAVE => Some('`'),
+        VC_TILDE => Some('~'),
+        VC_0 => Some('0'),
+        VC_PAREN_RIGHT => Some(')'),
+        VC_1 => Some('1'),
+        VC_EXCLAIM => Some('!'),
+        VC_2 => Some('2'),
+        VC_AT => Some('@'),
+        VC_3 => Some('3'),
+        VC_HASH => Some('#'),
+        VC_4 => Some('4'),
+        VC_DOLLAR => Some('$'),
+        VC_5 => Some('5'),
+        VC_PERCENT => Some('%'),
+        VC_6 => Some('6'),
+        VC_CIRCUM => Some('^'),
+        VC_7 => Some('7'),
+        VC_AMPERSAND => Some('&'),
+        VC_8 => Some('8'),
+        VC_ASTERISK => Some('*'),
+        VC_9 => Some('9'),
+        VC_PAREN_LEFT => Some('('),
 
         // Alphabet Keys
-        VC_Q_SHIFT => 'Q',
-        VC_Q => 'q',
-        VC_W_SHIFT => 'W',
-        VC_W => 'w',
-        VC_E_SHIFT => 'E',
-        VC_E => 'e',
-        VC_R_SHIFT => 'R',
-        VC_R => 'r',
-        VC_T_SHIFT => 'T',
-        VC_T => 't',
-        VC_Y_SHIFT => 'Y',
-        VC_Y => 'y',
-        VC_U_SHIFT => 'U',
-        VC_U => 'u',
-        VC_I_SHIFT => 'I',
-        VC_I => 'i',
-        VC_O_SHIFT => 'O',
-        VC_O => 'o',
-        VC_P_SHIFT => 'P',
-        VC_P => 'p',
-        VC_A_SHIFT => 'A',
-        VC_A => 'a',
-        VC_S_SHIFT => 'S',
-        VC_S => 's',
-        VC_D_SHIFT => 'D',
-        VC_D => 'd',
-        VC_F_SHIFT => 'F',
-        VC_F => 'f',
-        VC_G_SHIFT => 'G',
-        VC_G => 'g',
-        VC_H_SHIFT => 'H',
-        VC_H => 'h',
-        VC_J_SHIFT => 'J',
-        VC_J => 'j',
-        VC_K_SHIFT => 'K',
-        VC_K => 'k',
-        VC_L_SHIFT => 'L',
-        VC_L => 'l',
-        VC_Z_SHIFT => 'Z',
-        VC_Z => 'z',
-        VC_X_SHIFT => 'X',
-        VC_X => 'x',
-        VC_C_SHIFT => 'C',
-        VC_C => 'c',
-        VC_V_SHIFT => 'V',
-        VC_V => 'v',
-        VC_B_SHIFT => 'B',
-        VC_B => 'b',
-        VC_N_SHIFT => 'N',
-        VC_N => 'n',
-        VC_M_SHIFT => 'M',
-        VC_M => 'm',
+        VC_Q_SHIFT => Some('Q'),
+        VC_Q => Some('q'),
+        VC_W_SHIFT => Some('W'),
+        VC_W => Some('w'),
+        VC_E_SHIFT => Some('E'),
+        VC_E => Some('e'),
+        VC_R_SHIFT => Some('R'),
+        VC_R => Some('r'),
+        VC_T_SHIFT => Some('T'),
+        VC_T => Some('t'),
+        VC_Y_SHIFT => Some('Y'),
+        VC_Y => Some('y'),
+        VC_U_SHIFT => Some('U'),
+        VC_U => Some('u'),
+        VC_I_SHIFT => Some('I'),
+        VC_I => Some('i'),
+        VC_O_SHIFT => Some('O'),
+        VC_O => Some('o'),
+        VC_P_SHIFT => Some('P'),
+        VC_P => Some('p'),
+        VC_A_SHIFT => Some('A'),
+        VC_A => Some('a'),
+        VC_S_SHIFT => Some('S'),
+        VC_S => Some('s'),
+        VC_D_SHIFT => Some('D'),
+        VC_D => Some('d'),
+        VC_F_SHIFT => Some('F'),
+        VC_F => Some('f'),
+        VC_G_SHIFT => Some('G'),
+        VC_G => Some('g'),
+        VC_H_SHIFT => Some('H'),
+        VC_H => Some('h'),
+        VC_J_SHIFT => Some('J'),
+        VC_J => Some('j'),
+        VC_K_SHIFT => Some('K'),
+        VC_K => Some('k'),
+        VC_L_SHIFT => Some('L'),
+        VC_L => Some('l'),
+        VC_Z_SHIFT => Some('Z'),
+        VC_Z => Some('z'),
+        VC_X_SHIFT => Some('X'),
+        VC_X => Some('x'),
+        VC_C_SHIFT => Some('C'),
+        VC_C => Some('c'),
+        VC_V_SHIFT => Some('V'),
+        VC_V => Some('v'),
+        VC_B_SHIFT => Some('B'),
+        VC_B => Some('b'),
+        VC_N_SHIFT => Some('N'),
+        VC_N => Some('n'),
+        VC_M_SHIFT => Some('M'),
+        VC_M => Some('m'),
 
-        VC_MINUS => '-',
-        VC_UNDERSCORE => '_',
-        VC_EQUALS => '=',
-        VC_PLUS => '+',
+        VC_MINUS => Some('-'),
+        VC_UNDERSCORE => Some('_'),
+        VC_EQUALS => Some('='),
+        VC_PLUS => Some('+'),
 
-        VC_BRACKET_LEFT => '[',
-        VC_BRACKET_RIGHT => ']',
-        VC_BRACE_LEFT => '{',
-        VC_BRACE_RIGHT => '}',
-        VC_BACK_SLASH => '\\',
-        VC_BAR => '|',
+        VC_BRACKET_LEFT => Some('['),
+        VC_BRACKET_RIGHT => Some(']'),
+        VC_BRACE_LEFT => Some('{'),
+        VC_BRACE_RIGHT => Some('}'),
+        VC_BACK_SLASH => Some('\\'),
+        VC_BAR => Some('|'),
 
-        VC_SEMICOLON => ';',
-        VC_COLON => ':',
-        VC_APOSTROPHE => '\'',
-        VC_QUOTE => '\"',
+        VC_SEMICOLON => Some(';'),
+        VC_COLON => Some(':'),
+        VC_APOSTROPHE => Some('\''),
+        VC_QUOTE => Some('\"'),
 
-        VC_COMMA => ',',
-        VC_LESS => '<',
-        VC_PERIOD => '.',
-        VC_GREATER => '>',
-        VC_SLASH => '/',
-        VC_QUESTION => '?',
+        VC_COMMA => Some(','),
+        VC_LESS => Some('<'),
+        VC_PERIOD => Some('.'),
+        VC_GREATER => Some('>'),
+        VC_SLASH => Some('/'),
+        VC_QUESTION => Some('?'),
 
         // Keypad keys
-        VC_KP_0 => '0',
-        VC_KP_1 => '1',
-        VC_KP_2 => '2',
-        VC_KP_3 => '3',
-        VC_KP_4 => '4',
-        VC_KP_5 => '5',
-        VC_KP_6 => '6',
-        VC_KP_7 => '7',
-        VC_KP_8 => '8',
-        VC_KP_9 => '9',
+        VC_KP_0 => Some('0'),
+        VC_KP_1 => Some('1'),
+        VC_KP_2 => Some('2'),
+        VC_KP_3 => Some('3'),
+        VC_KP_4 => Some('4'),
+        VC_KP_5 => Some('5'),
+        VC_KP_6 => Some('6'),
+        VC_KP_7 => Some('7'),
+        VC_KP_8 => Some('8'),
+        VC_KP_9 => Some('9'),
 
-        VC_KP_DIVIDE => '/',
-        VC_KP_MULTIPLY => '*',
-        VC_KP_SUBTRACT => '-',
-        VC_KP_ADD => '+',
-        VC_KP_DECIMAL => '.',
+        VC_KP_DIVIDE => Some('/'),
+        VC_KP_MULTIPLY => Some('*'),
+        VC_KP_SUBTRACT => Some('-'),
+        VC_KP_ADD => Some('+'),
+        VC_KP_DECIMAL => Some('.'),
+        VC_KP_EQUALS => Some('='),
 
-        _ => panic!("Got unknown key!"),
+        _ => None,
     }
 }
